@@ -384,10 +384,10 @@ fn dec_bom(cx: &mut Ctx) {
 // ------------------------------------------------------------------------------------------------
 // encoder profiles
 
-pub const ENC_SCALARS: [u32; 40] = [
+pub const ENC_SCALARS: [u32; 41] = [
     0x0E, 0x1B, 0x20, 0x41, 0x5C, 0x7E, 0x7F, 0x80, 0xA5, 0xE9, 0x3A9, 0x410, 0x5D0, 0x1E3F, 0xE78D, 0xE864, 0x20AC, 0x203E, 0x2212, 0x2550,
     0x3000, 0x3042, 0x30A2, 0x4E00, 0x4EDD, 0x9FA5, 0xAC00, 0xE5E5, 0xE7C7, 0xF780, 0xF7FF, 0xFF61, 0xFF9F, 0xFFE5, 0xFFFD, 0x2008A, 0x1F4A9,
-    0x10FFFF, 0x7FF, 0x800,
+    0x10FFFF, 0x7FF, 0x800, 0x4E02, // U+4E02: a unified ideograph that JIS X 0208 and KS X 1001 lack
 ];
 pub const LONE: [u32; 2] = [0xD83D, 0xDCA9];
 /// decimal length boundaries of numeric character references
@@ -395,11 +395,11 @@ pub const NCR_SCALARS: [u32; 19] = [128, 129, 255, 999, 1000, 1001, 9999, 10000,
 
 fn short_alphabet(name: &str) -> Vec<u32> {
     match name {
-        "ISO-2022-JP" => vec![0x41, 0x5C, 0x1B, 0xA5, 0x203E, 0x3042, 0xFF61, 0x2212, 0x4E00, 0xE9, 0x1F4A9],
+        "ISO-2022-JP" => vec![0x41, 0x5C, 0x1B, 0xA5, 0x203E, 0x3042, 0xFF61, 0x2212, 0x4E00, 0x4E02, 0xE9, 0x1F4A9],
         "gb18030" | "GBK" => vec![0x41, 0x80, 0x20AC, 0xE9, 0x4E00, 0xE5E5, 0xE7C7, 0xE78D, 0x1F4A9, 0x3000],
         "Big5" => vec![0x41, 0x2550, 0x4E00, 0x2008A, 0xE9, 0x1F4A9, 0x3000],
-        "EUC-JP" | "Shift_JIS" => vec![0x41, 0x5C, 0xA5, 0x203E, 0x2212, 0xFF61, 0x3042, 0x4E00, 0x80, 0x1F4A9, 0xE9],
-        "EUC-KR" => vec![0x41, 0xAC00, 0x4E00, 0x3000, 0xE9, 0x1F4A9],
+        "EUC-JP" | "Shift_JIS" => vec![0x41, 0x5C, 0xA5, 0x203E, 0x2212, 0xFF61, 0x3042, 0x4E00, 0x4E02, 0x80, 0x1F4A9, 0xE9],
+        "EUC-KR" => vec![0x41, 0xAC00, 0x4E00, 0x4E02, 0x3000, 0xE9, 0x1F4A9],
         "UTF-8" | "UTF-16BE" | "UTF-16LE" | "replacement" => vec![0x41, 0x7F, 0x80, 0x7FF, 0x800, 0xFFFF, 0x10000, 0x10FFFF],
         "x-user-defined" => vec![0x41, 0xF780, 0xF7FF, 0x80, 0x1F4A9],
         _ => vec![0x41, 0x80, 0xA0, 0xE9, 0x410, 0x20AC, 0x3042, 0x1F4A9],
